@@ -7,6 +7,9 @@ import RbV.Lemmas.QGramExact
 import RbV.Lemmas.QGramMatches
 import RbV.Lemmas.QGramIndex
 import RbV.Lemmas.QGramExactModel
+import RbV.Thm.GenSrcQGrams
+import RbV.Thm.GenSrcQGramIndex
+import RbV.Thm.GenSrcAlphabet
 import RbV.Lemmas.KChainFwd
 import RbV.Lemmas.LcskppFinal
 import RbV.Lemmas.SdpkppUnion
@@ -79,6 +82,81 @@ theorem rev_qgrams_mirror (alpha : List Nat) (q : Nat) (text : List Nat) (hq : 0
 example : qgramsModel [65, 67, 71, 84, 97, 99, 103, 116] 2 [65, 67, 71, 84] = [1, 10, 19] ∧
     revQgramsModel [65, 67, 71, 84, 97, 99, 103, 116] 2 [65, 67, 71, 84] = [19, 10, 1] := by decide
 
+/-! ### the source text of the q-gram iterators (translated on every run, `Gen/SrcQGrams.lean`)
+
+`tools/rs2lean.py` translates `qgram_push`, `QGrams::next`, `RankTransform::qgrams` and the reverse counterparts; abstract
+parameters: `rankGet` (= `RankTransform::get`, translated and proved for C20; here any function that returns the model's
+rank on the symbols of the text), `ranksLen` (= `self.ranks.len()`), `ceilLog2` (= `(n as f32).log2().ceil() as u32`: the
+`f32` computation stays outside, hypothesis `ceilLog2 ranksLen = bitsFor |alpha|`).  `GenSrcQGrams.collectNext` calls the
+translated `next` until it returns `None`.  `Rs.Res.ok v` = no panic, result `v`. -/
+
+/-- `qgram_push` as written in the source is the model's `pushFwd` (`<<=`, `|=`, `&= mask` on 64-bit words) -/
+theorem qgram_push_source_eq_model (rg : Nat → Rs.Res Nat) (cl : Nat → Nat) (rl qg bits mask a : Nat) (hb : bits < 64) :
+    Gen.SrcQGrams.qgramPush rg cl rl qg bits mask a = Rs.Res.ok (pushFwd bits mask qg a) :=
+  GenSrcQGrams.qgramPush_eq_model rg cl rl qg bits mask a hb
+
+/-- **`RankTransform::qgrams` + `QGrams::next` as written in the source = the reference codes**: for every alphabet,
+`q ≥ 1` with `q·bits ≤ 64` and every text over the alphabet, the translated constructor passes its assertions, computes
+the model's mask, and the translated iterator yields exactly `qgramsModel = fwdCodes` -/
+theorem qgrams_source_eq_model (alpha : List Nat) (rg : Nat → Rs.Res Nat) (cl : Nat → Nat) (rl q : Nat) (text : List Nat)
+    (hq : 0 < q) (hqb : q * bitsFor alpha.length ≤ 64) (hb : bitsFor alpha.length < 64)
+    (hcl : cl rl = bitsFor alpha.length) (ht : ∀ c ∈ text, c ∈ alpha) (hrg : ∀ c ∈ text, rg c = Rs.Res.ok (rank alpha c))
+    (fuel : Nat) (hf : text.length < fuel) :
+    (do let st ← Gen.SrcQGrams.qgrams rg cl rl q text
+        GenSrcQGrams.collectNext (fun t g => Gen.SrcQGrams.next rg cl rl t st.2.2.1 st.2.2.2.1 g) fuel st.1 st.2.2.2.2)
+      = Rs.Res.ok (fwdCodes alpha q text) := by
+  rw [GenSrcQGrams.qgrams_collect_eq_model (rank alpha) rg cl rl q _ text hq hqb hb hcl hrg fuel hf]
+  exact congrArg Rs.Res.ok (qgrams_model_refines alpha q text hq hqb ht)
+
+/-- **`RankTransform::rev_qgrams` + `RevQGrams::next` as written in the source** yield the reference codes in reverse -/
+theorem rev_qgrams_source_eq_model (alpha : List Nat) (rg : Nat → Rs.Res Nat) (cl : Nat → Nat) (rl q : Nat)
+    (text : List Nat) (hq : 0 < q) (hqb : q * bitsFor alpha.length ≤ 64) (hb : bitsFor alpha.length < 64)
+    (hcl : cl rl = bitsFor alpha.length) (ht : ∀ c ∈ text, c ∈ alpha) (hrg : ∀ c ∈ text, rg c = Rs.Res.ok (rank alpha c))
+    (fuel : Nat) (hf : text.length < fuel) :
+    (do let st ← Gen.SrcQGrams.revQgrams rg cl rl q text
+        GenSrcQGrams.collectNext (fun t g => Gen.SrcQGrams.nextRev rg cl rl t st.2.2.1 st.2.2.2.1 g) fuel st.1 st.2.2.2.2)
+      = Rs.Res.ok (fwdCodes alpha q text).reverse := by
+  have hR : ∀ c ∈ text, rank alpha c < 2 ^ bitsFor alpha.length := fun c hc =>
+    Nat.lt_of_lt_of_le (rank_lt_length (ht c hc)) (le_two_pow_bitsFor _)
+  rw [GenSrcQGrams.revQgrams_collect_eq_model (rank alpha) rg cl rl q _ text hq hqb hb hcl hrg hR fuel hf]
+  have h := rev_qgrams_mirror alpha q text hq hqb ht
+  rw [qgrams_model_refines alpha q text hq hqb ht] at h
+  exact congrArg Rs.Res.ok h
+
+/-- the two translated units composed: with the rank map the *translated* `RankTransform::new` builds for the alphabet of
+`syms` and the *translated* `RankTransform::get` as `rankGet`, the translated `qgrams` + `QGrams::next` yield the reference
+codes of every text over the alphabet.  What stays abstract: `ceilLog2` (the `f32` computation `(len as f32).log2().ceil()`)
+and that `ranks.len()` is the alphabet size. -/
+theorem qgrams_source_with_source_ranks (syms : List Nat) (cl : Nat → Nat) (q : Nat) (hq : 0 < q)
+    (hqb : q * bitsFor (alphaSet syms).length ≤ 64) (hb : bitsFor (alphaSet syms).length < 64)
+    (hcl : cl (alphaSet syms).length = bitsFor (alphaSet syms).length) :
+    ∃ m, Gen.SrcAlphabet.rankNew (alphaSet syms) = Rs.Res.ok m ∧
+      ∀ (text : List Nat), (∀ c ∈ text, c ∈ alphaSet syms) → ∀ fuel, text.length < fuel →
+        (do let st ← Gen.SrcQGrams.qgrams (Gen.SrcAlphabet.rankGet m) cl (alphaSet syms).length q text
+            GenSrcQGrams.collectNext
+              (fun t g => Gen.SrcQGrams.next (Gen.SrcAlphabet.rankGet m) cl (alphaSet syms).length t st.2.2.1 st.2.2.2.1 g)
+              fuel st.1 st.2.2.2.2)
+          = Rs.Res.ok (fwdCodes (alphaSet syms) q text) := by
+  have hA : alphaSet syms = Alpha.mk syms := rfl
+  have hs : (alphaSet syms).Pairwise (· < ·) := by rw [hA]; exact Alpha.mk_sorted syms
+  have hl : (alphaSet syms).length ≤ 256 := by
+    unfold alphaSet
+    exact Nat.le_trans (List.length_filter_le _ _) (by simp)
+  obtain ⟨m, h1, h2⟩ := GenSrcAlphabet.rankNew_eq_model (alphaSet syms) hs hl
+  refine ⟨m, h1, ?_⟩
+  intro text ht fuel hf
+  refine qgrams_source_eq_model (alphaSet syms) _ cl _ q text hq hqb hb hcl ht ?_ fuel hf
+  intro c hc
+  rw [GenSrcAlphabet.rankGet_eq_model (alphaSet syms) m h2 c, if_pos (ht c hc),
+    Alpha.rank_eq_countLt (alphaSet syms) hs c (ht c hc)]
+  rfl
+
+-- "ACGT" over the alphabet ACGTacgt with the ranks the translated `RankTransform::new` builds (documented example)
+example : (do let m ← Gen.SrcAlphabet.rankNew (alphaSet [65, 67, 71, 84, 97, 99, 103, 116])
+              let st ← Gen.SrcQGrams.qgrams (Gen.SrcAlphabet.rankGet m) (fun _ => 3) 8 2 [65, 67, 71, 84]
+              GenSrcQGrams.collectNext (fun t g => Gen.SrcQGrams.next (Gen.SrcAlphabet.rankGet m) (fun _ => 3) 8 t
+                st.2.2.1 st.2.2.2.1 g) 5 st.1 st.2.2.2.2) = Rs.Res.ok [1, 10, 19] := by decide +kernel
+
 /-! ## q-gram index: position lists -/
 
 /-- the reference lists exactly the positions where the q-gram occurs — provided it occurs at most `mc` times,
@@ -127,6 +205,61 @@ theorem occurrence_count_exact (g t : List Nat) (i : Nat) : i ∈ occurrences g 
   mem_occurrences g t i
 
 example : qgramPositions 5 [1, 2] [1, 2, 0, 1, 2] = [0, 3] ∧ qgramPositions 1 [1, 2] [1, 2, 0, 1, 2] = [] := by decide
+
+/-! ### the source text of `QGramIndex::with_max_count` (translated on every run, `Gen/SrcQGramIndex.lean`)
+
+Abstract parameters of the translated definition: `rankNew`, `getWidth` (= `ranks.get_width()`), `qgramsOf q text` (= the
+codes the q-gram iterator yields, `qgrams_source_eq_model`), `prescanAdd` (= `utils::prescan` with `|a, b| a + b`,
+`prescan_source_eq_model` of C04). -/
+
+/-- **`with_max_count` as written in the source = the counting-sort model**: when `bits·q < 64`, every code is below the
+table size and there are fewer than `2^64` q-grams, the translated function never panics (no index out of range, no
+overflow) and returns the model's address table and position list -/
+theorem qgram_index_source_eq_model {αβ ρ τ : Type} (rankNew : αβ → ρ) (getWidth : Nat) (qgramsOf : Nat → τ → List Nat)
+    (prescanAdd : List Nat → Nat → Rs.Res (List Nat)) (q : Nat) (text : τ) (alphabet : αβ) (mc : Nat)
+    (hw : getWidth < 2 ^ 32) (hbq : getWidth * q < 64)
+    (hcodes : ∀ c ∈ qgramsOf q text, c < 2 ^ (getWidth * q)) (hlen : (qgramsOf q text).length < 2 ^ 64)
+    (hps : ∀ l : List Nat, l.sum < 2 ^ 64 → prescanAdd l 0 = Rs.Res.ok (prescan 0 l)) :
+    Gen.SrcQGramIndex.withMaxCount rankNew getWidth qgramsOf prescanAdd q text alphabet mc
+      = Rs.Res.ok (q, (buildIndex (2 ^ (getWidth * q)) mc (qgramsOf q text)).1,
+          (buildIndex (2 ^ (getWidth * q)) mc (qgramsOf q text)).2, rankNew alphabet) :=
+  GenSrcQGramIndex.withMaxCount_eq_model rankNew getWidth qgramsOf prescanAdd q text alphabet mc hw hbq hcodes hlen hps
+
+/-- … hence the *translated* `qgram_matches` on the index the *translated* `with_max_count` builds returns, for every
+q-gram over the alphabet, exactly its text positions (nothing when it occurs more than `max_count` times) — no read of
+`address` and no slice of `pos` is out of range -/
+theorem qgram_index_source_positions_exact {αβ ρ : Type} (rankNew : αβ → ρ) (alpha : List Nat)
+    (prescanAdd : List Nat → Nat → Rs.Res (List Nat)) (q : Nat) (text : List Nat) (alphabet : αβ) (mc : Nat)
+    (hq : 0 < q) (hbq : bitsFor alpha.length * q < 64) (ht : ∀ c ∈ text, c ∈ alpha) (hlen : text.length + 1 < 2 ^ 64)
+    (hps : ∀ l : List Nat, l.sum < 2 ^ 64 → prescanAdd l 0 = Rs.Res.ok (prescan 0 l)) :
+    ∃ address pos, Gen.SrcQGramIndex.withMaxCount rankNew (bitsFor alpha.length) (fun q t => fwdCodes alpha q t) prescanAdd
+        q text alphabet mc = Rs.Res.ok (q, address, pos, rankNew alphabet) ∧
+      ∀ gram, (∀ c ∈ gram, c ∈ alpha) → gram.length = q →
+        Gen.SrcQGramIndex.qgramMatches rankNew (bitsFor alpha.length) (fun q t => fwdCodes alpha q t) address pos
+            (code (bitsFor alpha.length) (gram.map (rank alpha)))
+          = Rs.Res.ok (qgramPositions mc gram text) := by
+  have hcodes := GenSrcQGramIndex.fwdCodes_lt alpha q text ht
+  refine ⟨_, _, qgram_index_source_eq_model rankNew (bitsFor alpha.length) (fun q t => fwdCodes alpha q t) prescanAdd q text
+    alphabet mc (by
+      have : bitsFor alpha.length * 1 ≤ bitsFor alpha.length * q := Nat.mul_le_mul_left _ hq
+      omega) hbq hcodes
+    (by have := GenSrcQGramIndex.fwdCodes_length_le alpha q text; omega) hps, ?_⟩
+  intro gram hg hgl
+  have hsz : 2 ^ (bitsFor alpha.length * q) + 1 < 2 ^ 64 := by
+    have : 2 ^ (bitsFor alpha.length * q) ≤ 2 ^ 63 := Nat.pow_le_pow_right (by omega) (by omega)
+    omega
+  have hcl : code (bitsFor alpha.length) (gram.map (rank alpha)) < 2 ^ (bitsFor alpha.length * q) := by
+    have := qgram_code_bound alpha gram hg
+    rw [hgl] at this; exact this
+  rw [GenSrcQGramIndex.qgramMatches_eq_model rankNew (bitsFor alpha.length) (fun q t => fwdCodes alpha q t)
+    (2 ^ (bitsFor alpha.length * q)) mc (fwdCodes alpha q text) hcodes hsz _ hcl]
+  exact congrArg Rs.Res.ok (indexModel_eq alpha q mc text gram hq ht hg hgl)
+
+-- the translated constructor on "abccbc" over {a, b, c}, q = 2 (codes 1, 6, 10, 9, 6): address table and positions
+example : Gen.SrcQGramIndex.withMaxCount (αβ := Unit) (ρ := Unit) (fun _ => ()) 2
+    (fun q t => fwdCodes [97, 98, 99] q t) (fun l s => Rs.Res.ok (prescan s l)) 2 [97, 98, 99, 99, 98, 99] () 5
+    = Rs.Res.ok (2, (buildIndex 16 5 (fwdCodes [97, 98, 99] 2 [97, 98, 99, 99, 98, 99])).1,
+        (buildIndex 16 5 (fwdCodes [97, 98, 99] 2 [97, 98, 99, 99, 98, 99])).2, ()) := by decide +kernel
 
 /-! ## q-gram index: hits, `exact_matches`, `matches` -/
 
